@@ -518,6 +518,38 @@ def stepC13 (ts : List String) : String :=
     | _, _, _ => "bad-op"
   | _ => "bad-op"
 
+def showRats (xs : List Rat) : String := " ".intercalate (xs.map showRat)
+
+def stepC14 (ts : List String) : String :=
+  match ts with
+  | "runmean" :: n :: w :: rest =>
+    match n.toNat?, w.toNat?, intList? rest with
+    | some _, some w, some xs => s!"ok {showRats (Filters.runningMean (xs.map (fun (z : Int) => (z : Rat))) w)}"
+    | _, _, _ => "bad-op"
+  | ["runidx", n, w] =>
+    match n.toNat?, w.toNat? with
+    | some n, some w =>
+      if Filters.runningLen n w ≠ n then s!"err length {Filters.runningLen n w}" else
+      s!"ok {showNats ((List.range n).flatMap (Filters.windowIdx n w))}"
+    | _, _ => "bad-op"
+  | "down1d" :: n :: f :: rest =>
+    match n.toNat?, f.toNat?, intList? rest with
+    | some _, some f, some xs => s!"ok {showRats (Filters.downsample1d (xs.map (fun (z : Int) => (z : Rat))) f)}"
+    | _, _, _ => "bad-op"
+  | "down2d" :: d1 :: d2 :: f1 :: f2 :: rest =>
+    match d1.toNat?, d2.toNat?, f1.toNat?, f2.toNat?, intList? rest with
+    | some d1, some d2, some f1, some f2, some xs =>
+      let x := xs.map (fun (z : Int) => (z : Rat))
+      let a := (Filters.downsample2d x d1 d2 f1 f2).flatten
+      let b := Filters.downsample2dFlat x d1 d2 f1 f2
+      if a ≠ b then "err flat-differs-from-2d" else s!"ok {showRats a}"
+    | _, _, _, _, _ => "bad-op"
+  | "detrend" :: n :: rest =>
+    match n.toNat?, intList? rest with
+    | some _, some xs => s!"ok {showRats (Filters.detrend (xs.map (fun (z : Int) => (z : Rat))))}"
+    | _, _ => "bad-op"
+  | _ => "bad-op"
+
 def step (line : String) : String :=
   match (line.trimAscii.toString.splitOn " ").filter (· ≠ "") with
   | "C03" :: rest => stepC03 rest
@@ -532,6 +564,7 @@ def step (line : String) : String :=
   | "C17" :: rest => stepC17 rest
   | "C12" :: rest => stepC12 rest
   | "C13" :: rest => stepC13 rest
+  | "C14" :: rest => stepC14 rest
   | "C04" :: rest => stepC04 rest
   | "C10" :: rest => stepC10 rest
   | _ => "bad-op"
